@@ -428,6 +428,12 @@ func (ctrler *StakeCtrler) ValidateTrx(ctx *ctrlertypes.TrxContext) xerrors.XErr
 			return xerrors.ErrInvalidTrx.Wrapf("wrong amount: it should be multiple of %v", ctrlertypes.AmountPerPower())
 		}
 
+		// the power of `ctx.Tx.Amount` MUST be in the range of the voting power of consensus engine
+		//    ==> q <= MaxTotalPower()
+		if !q.IsUint64() || q.Uint64() > uint64(ctrlertypes.MaxTotalPower()) {
+			return xerrors.ErrInvalidTrx.Wrapf("wrong amount: the power of it should not be greater than %v", ctrlertypes.MaxTotalPower())
+		}
+
 		txPower := ctrlertypes.AmountToPower(ctx.Tx.Amount)
 		totalPower := int64(0)
 
@@ -475,6 +481,9 @@ func (ctrler *StakeCtrler) ValidateTrx(ctx *ctrlertypes.TrxContext) xerrors.XErr
 		}
 
 		// check overflow
+		if totalPower > ctrlertypes.MaxTotalPower()-txPower {
+			return xerrors.ErrInvalidTrx.Wrapf("wrong amount: the power of delegatee should not be greater than %v", ctrlertypes.MaxTotalPower())
+		}
 		if (totalPower + txPower) <= 0 {
 			panic(fmt.Errorf("delegatee power overflow occurs.\ndelegatee: %v\ntx:%v", delegatee, ctx.Tx))
 		}
